@@ -351,6 +351,49 @@ def dominated_by_ge_test(B, bi, s):
 BOUNDARY_FNS = ("truncate_at_char_boundary", "floor_char_boundary", "ceil_char_boundary")
 
 
+def boundary_search(F, B, o):
+    if o["k"] not in ("copy", "move") or o["p"]["p"]:
+        return False
+    d = B.single_def(o["p"]["l"])
+    hops = 0
+    while d and d[2] == "assign" and d[3]["rv"]["k"] == "use" and d[3]["rv"]["o"]["k"] in ("copy", "move") and not d[3]["rv"]["o"]["p"]["p"] and hops < 6:
+        hops += 1
+        d = B.single_def(d[3]["rv"]["o"]["p"]["l"])
+    if not d or d[2] != "call":
+        return False
+    t = d[3]
+    w, r = mir.callee_of(t)
+    if not q.ends(q.base_name(w or ""), "Option::unwrap_or") or len(t["args"]) != 2:
+        return False
+    dv = t["args"][1]
+    if not (dv["k"] == "const" and dv.get("val") == 0):
+        return False
+    x = t["args"][0]
+    if x["k"] not in ("copy", "move") or x["p"]["p"]:
+        return False
+    d2 = B.single_def(x["p"]["l"])
+    if not d2 or d2[2] != "call":
+        return False
+    t2 = d2[3]
+    w2, r2 = mir.callee_of(t2)
+    if q.base_name(w2 or "").rsplit("::", 1)[-1] not in ("find", "rfind") or len(t2["args"]) != 2:
+        return False
+    for c in B.origins(t2["args"][1]):
+        cf = F.fns.get(c[1]) if c[0] == "agg" else None
+        if cf is None:
+            return False
+        Bc = mir.Body(cf, F)
+        ro = Bc.origins({"l": 0, "p": []})
+        if not ro or not all(y[0] == "call" and q.ends(y[1], "is_char_boundary") for y in ro):
+            return False
+        for y in ro:
+            ta = Bc.blocks[y[2]]["term"]["args"]
+            idx = Bc.origins(ta[1])
+            if not (idx and all(z[0] == "param" and z[1] not in Bc.upvar.values() for z in idx)):
+                return False
+    return True
+
+
 def char_boundary_idiom(F, a, fid):
     """accepted idioms for a byte offset into external text: the offset is 0, or is tested by is_char_boundary on the
     dominating path, or is the len() of a prefix returned by a boundary helper of the same text"""
@@ -393,6 +436,10 @@ def char_boundary_idiom(F, a, fid):
                     continue
             if org and all(x[0] == "call" and q.ends(x[1], *BOUNDARY_FNS) for x in org):
                 reasons.append("offset returned by a char-boundary function")
+                continue
+            # `candidates.find(|&i| text.is_char_boundary(i)).unwrap_or(0)`: the offset passed the boundary test, or is 0
+            if boundary_search(F, B, o):
+                reasons.append("offset selected by an is_char_boundary search (0 when none)")
                 continue
             # is_char_boundary(.., offset) true-edge dominates the site
             from rules.c05 import base_local
